@@ -884,6 +884,19 @@ fn run_c20(thorough: bool, out: &mut Out) {
         c20_check(&mut j, &mut fits, &[sized(1, a), sized(2, half)], out);
         c20_check(&mut j, &mut fits, &[sized(1, a), sized(2, half), sized(3, 1)], out);
     }
+    // boundary walks with many spans in the datagram (the list header grows at 15 and at 128
+    // elements): n equal spans sized so that together they sit just below the limit, then one span
+    // grown byte by byte across it
+    for n in [14usize, 15, 16, 20, 127, 128, 140] {
+        // name length per span such that n spans fill a datagram almost exactly
+        let per = (LIMIT.saturating_sub(overhead + 8)) / n;
+        let base = per.saturating_sub(overhead.min(per) / 2).max(1);
+        for grow in 0..120usize {
+            let mut input: Vec<SpanRecord> = (0..n).map(|i| sized(i as u64 + 1, base.saturating_sub(40).max(1))).collect();
+            input[n / 2] = sized(n as u64 / 2 + 1, base.saturating_sub(40).max(1) + grow * (if n > 100 { 1 } else { 1 }));
+            c20_check(&mut j, &mut fits, &input, out);
+        }
+    }
     // many small spans: the splitter must still deliver each exactly once, in order
     for n in [9usize, 64, 257, 1000] {
         let input: Vec<SpanRecord> = (0..n).map(|i| sized(i as u64 + 1, 40 + (i * 37) % 400)).collect();
@@ -948,7 +961,7 @@ fn main() {
     } else {
         run_c20(tier == "thorough", &mut out);
         (
-            "all batches of n <= 5 (6) spans over 5 size classes (tiny, 1/3 packet, just over 1/2, just under the limit, oversize), boundary walks of a single span and of pairs across the 8000-byte limit, batches of 9..1000 small spans with oversize spans at the front, middle and end; which spans fit alone is decided differentially; distinct_nontrivial counts distinct (datagram count, skipped count) classes",
+            "all batches of n <= 5 (6) spans over 5 size classes (tiny, 1/3 packet, just over 1/2, just under the limit, oversize), boundary walks of a single span, of pairs and of batches of 14..140 equal spans (one of them grown byte by byte) across the 8000-byte limit, batches of 9..1000 small spans with oversize spans at the front, middle and end; which spans fit alone is decided differentially; distinct_nontrivial counts distinct (datagram count, skipped count) classes",
             vec!["loopback UDP loss is ruled out by the socket's drop counter in /proc/net/udp"],
         )
     };
